@@ -15,11 +15,13 @@ import itertools
 import logging
 
 PROPERTY = "C14"
-RULE = ("route: all 256 message codes x {group, broadcast, own individual, foreign individual} x all 256 first TPDU octets x "
-        "{plain APDU, Data Secure APDU, no APDU} (exhaustive in thorough; all codes x a TPCI dictionary + random in quick); "
-        "sched: 1-3 concurrent senders x interface behaviours {immediate, delayed, error, local confirmation} with confirmations / "
-        "other frames (incl. T_Data_Connected to this interface, which makes Management send a T_ACK concurrently) injected at "
-        "every loop-iteration boundary (depth 1-2 exhaustive, 3-6 sampled). non-trivial = distinct op lines")
+RULE = ("route: the three L_Data codes x {group, broadcast, own individual, foreign individual} x all 256 first TPDU octets x "
+        "{plain APDU, Data Secure APDU, no APDU} and all 256 message codes x a TPCI dictionary (the outcome of the other 253 codes does not "
+        "depend on the TPDU) - exhaustive in thorough; all codes x 4 frames + L_Data codes x dictionary + random in quick; "
+        "sched: 1-3+ concurrent senders x interface behaviours {immediate, delayed 0.1 s, slow 2.5 s, error, local confirmation} with "
+        "confirmations / other frames (incl. T_Data_Connected to this interface, which makes Management send a T_ACK concurrently) injected at "
+        "every loop-iteration boundary: every single action (12 kinds) exhaustively, every pair over the core alphabet {con, sender, tdc"
+        "[, grp, conp]} at the first 14 (quick) / 40 (thorough) boundaries, 3-6 actions sampled. non-trivial = distinct op lines")
 TRUSTED = [
     "model XknxVerif.Model.CEMIHandler hand-written (route reuses the TPCI model of C03); message codes and REQUEST_TO_CONFIRMATION_TIMEOUT regenerated",
     "the KNX/IP interface is replaced by a stub whose send_cemi() is the hand-over point; Management/TelegramQueue/DataSecure hooks observed by subclass / callback",
